@@ -26,10 +26,10 @@
           callback), [false] = before that commit (uv__signal_event stopped a
           ONE_SHOT handle after every message, also one whose signum was not the
           watched one);
-   [fr] - [false] = the code as it is (after the callback a ONE_SHOT handle is
-          stopped whatever it watches by then), [true] = with
-          notes/C13_fix_oneshot_restart_in_cb.diff (stopped only if it still watches
-          the signal of the message).
+   [fr] - [true] = the code as it is since /repo commit 48c2ea2
+          (notes/C13_fix_oneshot_restart_in_cb.diff: after the callback a ONE_SHOT
+          handle is stopped only if it still watches the signal of the message),
+          [false] = before that commit (stopped whatever it watches by then).
 
    Ghost fields (never printed, never read by the modelled code): [g_fired]
    (the handler has run for this handle since it was last inserted into the
@@ -70,7 +70,8 @@ Inductive event :=
 | ECloseCb (h : nat)
 | ERunBegin (l : nat)
 | ERunEnd (l : nat)
-| ESnap (d : list disp) (a : list bool). (* sigaction() of the watched signals, uv_is_active of every handle *)
+| ESnap (d : list disp) (a : list bool)  (* sigaction() of the watched signals, uv_is_active of every handle *)
+| EDrop (h sig : nat).                   (* ghost: a message (h, sig) was consumed without a callback *)
 
 Record state := mkS {
   hs : list handle;
@@ -82,24 +83,26 @@ Record state := mkS {
   cap : nat;
   cbcount : nat;
   race : bool;
+  lost : nat;                (* ghost: writes that found the pipe full (EAGAIN) *)
   tr : list event
 }.
 
 Definition init (c : nat) : state :=
-  mkS [] [] (fun _ => Default) (fun _ => []) [] (fun _ => []) c 0 false [].
+  mkS [] [] (fun _ => Default) (fun _ => []) [] (fun _ => []) c 0 false 0 [].
 
 Definition dflt_h : handle := mkH 0 0 false 0 0 false false false false.
 Definition get (s : state) (h : nat) : handle := nth h (hs s) dflt_h.
 
-Definition with_hs (s : state) v := mkS v (tree s) (disp_of s) (pipe_of s) (batch s) (clq_of s) (cap s) (cbcount s) (race s) (tr s).
-Definition with_tree (s : state) v := mkS (hs s) v (disp_of s) (pipe_of s) (batch s) (clq_of s) (cap s) (cbcount s) (race s) (tr s).
-Definition with_disp (s : state) v := mkS (hs s) (tree s) v (pipe_of s) (batch s) (clq_of s) (cap s) (cbcount s) (race s) (tr s).
-Definition with_pipes (s : state) v := mkS (hs s) (tree s) (disp_of s) v (batch s) (clq_of s) (cap s) (cbcount s) (race s) (tr s).
-Definition with_batch (s : state) v := mkS (hs s) (tree s) (disp_of s) (pipe_of s) v (clq_of s) (cap s) (cbcount s) (race s) (tr s).
-Definition with_clqs (s : state) v := mkS (hs s) (tree s) (disp_of s) (pipe_of s) (batch s) v (cap s) (cbcount s) (race s) (tr s).
-Definition with_cbcount (s : state) v := mkS (hs s) (tree s) (disp_of s) (pipe_of s) (batch s) (clq_of s) (cap s) v (race s) (tr s).
-Definition with_race (s : state) v := mkS (hs s) (tree s) (disp_of s) (pipe_of s) (batch s) (clq_of s) (cap s) (cbcount s) v (tr s).
-Definition with_tr (s : state) v := mkS (hs s) (tree s) (disp_of s) (pipe_of s) (batch s) (clq_of s) (cap s) (cbcount s) (race s) v.
+Definition with_hs (s : state) v := mkS v (tree s) (disp_of s) (pipe_of s) (batch s) (clq_of s) (cap s) (cbcount s) (race s) (lost s) (tr s).
+Definition with_tree (s : state) v := mkS (hs s) v (disp_of s) (pipe_of s) (batch s) (clq_of s) (cap s) (cbcount s) (race s) (lost s) (tr s).
+Definition with_disp (s : state) v := mkS (hs s) (tree s) v (pipe_of s) (batch s) (clq_of s) (cap s) (cbcount s) (race s) (lost s) (tr s).
+Definition with_pipes (s : state) v := mkS (hs s) (tree s) (disp_of s) v (batch s) (clq_of s) (cap s) (cbcount s) (race s) (lost s) (tr s).
+Definition with_batch (s : state) v := mkS (hs s) (tree s) (disp_of s) (pipe_of s) v (clq_of s) (cap s) (cbcount s) (race s) (lost s) (tr s).
+Definition with_clqs (s : state) v := mkS (hs s) (tree s) (disp_of s) (pipe_of s) (batch s) v (cap s) (cbcount s) (race s) (lost s) (tr s).
+Definition with_cbcount (s : state) v := mkS (hs s) (tree s) (disp_of s) (pipe_of s) (batch s) (clq_of s) (cap s) v (race s) (lost s) (tr s).
+Definition with_race (s : state) v := mkS (hs s) (tree s) (disp_of s) (pipe_of s) (batch s) (clq_of s) (cap s) (cbcount s) v (lost s) (tr s).
+Definition with_tr (s : state) v := mkS (hs s) (tree s) (disp_of s) (pipe_of s) (batch s) (clq_of s) (cap s) (cbcount s) (race s) (lost s) v.
+Definition with_lost (s : state) v := mkS (hs s) (tree s) (disp_of s) (pipe_of s) (batch s) (clq_of s) (cap s) (cbcount s) (race s) v (tr s).
 
 Definition fupd {A} (f : nat -> A) (k : nat) (v : A) : nat -> A :=
   fun x => if x =? k then v else f x.
@@ -185,7 +188,7 @@ Definition write_msg (sig : nat) (s : state) (y : nat) : state :=
   let s1 := upd_h s y h_set_fired in
   if length (pipe_of s1 l) <? cap s1
   then upd_h (set_pipe s1 l (pipe_of s1 l ++ [(y, sig)])) y h_inc_caught
-  else s1.                                   (* EAGAIN: caught_signals not incremented *)
+  else with_lost s1 (S (lost s1)).           (* EAGAIN: caught_signals not incremented *)
 
 Definition handler (s : state) (sig : nat) : state :=
   fold_left (write_msg sig) (targets s sig) s.
@@ -304,9 +307,10 @@ Definition msg_after_cb (fr : bool) (s : state) (h sig : nat) (r : list msg) : s
   else msg_finish s h r.
 
 (* a message whose signum is not the one being watched: no callback *)
-Definition msg_skip (fs : bool) (s : state) (h : nat) (r : list msg) : state :=
-  if fs then upd_h (with_batch s r) h h_inc_dispatched      (* repaired: only dispatched_signals++ *)
-  else msg_finish s h r.                                    (* as it is: also the one-shot stop *)
+Definition msg_skip (fs : bool) (s : state) (h sig : nat) (r : list msg) : state :=
+  let s0 := log s (EDrop h sig) in
+  if fs then upd_h (with_batch s0 r) h h_inc_dispatched     (* only dispatched_signals++ *)
+  else msg_finish s0 h r.                                   (* before c39ecc3: also the one-shot stop *)
 
 Definition process_msg (fx fs fr : bool) (beh : nat -> list op) (s : state) (m : msg) (r : list msg) : state :=
   let h := fst m in
@@ -314,7 +318,7 @@ Definition process_msg (fx fs fr : bool) (beh : nat -> list op) (s : state) (m :
   if sig =? h_signum (get s h) then
     let s1 := script fx (cb_enter s h sig) (beh (cbcount s)) in
     msg_after_cb fr (log s1 (ECbEnd h)) h sig r
-  else msg_skip fs s h r.
+  else msg_skip fs s h sig r.
 
 Fixpoint process_msgs (fx fs fr : bool) (beh : nat -> list op) (s : state) (b : list msg) : state :=
   match b with
